@@ -175,7 +175,7 @@ pub fn run(args: &[String]) -> ! {
                tx id never succeeded before; failure => full state dump (verifiable, non-verifiable, \
                block-fee pot, cached deposits) identical to before. Non-trivial: a multi-action \
                transaction that failed during execution (after construction succeeded)",
-        cases_quick: 600,
+        cases_quick: 1200,
         cases_thorough: 20_000,
         shards: 12,
         min_nontrivial: 0.03,
